@@ -37,7 +37,7 @@ namespace Torsion
 
 theorem gradR_eq (ρ : Nat → ℝ) (s : Nat) (e : Ex) (h : torsionGrad.outs.lookup s = some e) :
     torsionGrad.gradR ρ s = e.evalR (envT ρ) := by
-  unfold Prog.gradR; rw [h, env_eq]
+  rw [Prog.gradR_of_no_guard _ rfl]; unfold Prog.gradRaw; rw [h, env_eq]
 
 theorem aG_eq (ρ : Nat → ℝ) :
     N1z ρ * C3 ρ / L1 ρ + N1y ρ * C2 ρ / L1 ρ + N1x ρ * C1 ρ / L1 ρ = A ρ := by
@@ -220,7 +220,7 @@ theorem torsion_untouched (ρ : Nat → ℝ) (s : Nat) (hs : 12 ≤ s) : torsion
     simp only [torsionGrad, List.forall_mem_cons]
     simp
     omega
-  unfold Prog.gradR; rw [this]
+  rw [Prog.gradR_of_no_guard _ rfl]; unfold Prog.gradRaw; rw [this]
 
 theorem torsion_identity (ρ : Nat → ℝ) (h : TorsionRegular ρ) :
     ∀ s, s < 12 → torsionE.evalD ρ (Pi.single s 1) = torsionGrad.gradR ρ s := by
